@@ -113,18 +113,48 @@ func (c *Ctx) Tabled(table, key string) (string, bool) {
 
 func (c *Ctx) add(o Obligation) { c.Obls = append(c.Obls, o) }
 
-func (c *Ctx) OK(rule, inst, site, detail string) {
+// ruleAlias, while set, renames the rules of what is recorded: a group of rules written for one property is run under
+// another property's rule name when the same structural fact is a necessary condition of both.
+var ruleAlias map[string]string
+
+func (c *Ctx) aliased(rule string) string {
+	if ruleAlias != nil {
+		if r, ok := ruleAlias[rule]; ok {
+			return r
+		}
+		for from, to := range ruleAlias {
+			if strings.HasSuffix(from, ".*") && strings.HasPrefix(rule, strings.TrimSuffix(from, "*")) {
+				return to
+			}
+		}
+	}
+	return rule
+}
+
+// WithRules runs f with every rule named in m recorded under the mapped name ("C06.*" maps a whole group).
+func (c *Ctx) WithRules(m map[string]string, f func()) {
+	old := ruleAlias
+	ruleAlias = m
+	defer func() { ruleAlias = old }()
+	f()
+}
+
+func (c *Ctx) OK(rule0, inst, site, detail string) {
+	rule := c.aliased(rule0)
 	c.add(Obligation{rule, inst, site, "ok", detail})
 }
-func (c *Ctx) Info(rule, inst, site, detail string) {
+func (c *Ctx) Info(rule0, inst, site, detail string) {
+	rule := c.aliased(rule0)
 	c.add(Obligation{rule, inst, site, "info", detail})
 }
-func (c *Ctx) TabledOK(rule, inst, site, reason string) {
+func (c *Ctx) TabledOK(rule0, inst, site, reason string) {
+	rule := c.aliased(rule0)
 	c.add(Obligation{rule, inst, site, "tabled", reason})
 }
 
 // Fail records a violation of rule at instance (key = rule|instance).
-func (c *Ctx) Fail(rule, inst, site, detail string) {
+func (c *Ctx) Fail(rule0, inst, site, detail string) {
+	rule := c.aliased(rule0)
 	key := rule + "|" + inst
 	if what, ok := c.known[key]; ok {
 		c.add(Obligation{rule, inst, site, "known-finding", what + " :: " + detail})
@@ -134,7 +164,8 @@ func (c *Ctx) Fail(rule, inst, site, detail string) {
 }
 
 // Undecided records that the engine could not classify a required construct.
-func (c *Ctx) Undecided(rule, inst, site, detail string) {
+func (c *Ctx) Undecided(rule0, inst, site, detail string) {
+	rule := c.aliased(rule0)
 	c.add(Obligation{rule, inst, site, "undecided", detail})
 }
 
